@@ -274,6 +274,9 @@ def replay(data):
     nout = r.get('nout', 2)
     ts = [inp[f'ts{i}'] for i in range(nout)]
     dt, dtmin = inp['dt'], inp['dtmin']
+    if not (dtmin > 0 and dt >= dtmin and all(a < b for a, b in zip(ts[:-1], ts[1:]))):
+        print('replay C14: counterexample violates the preconditions (not a reproduction)')
+        return False
     errs = [inp[k] for k in sorted((k for k in inp if k.startswith('err!')), key=lambda s: int(s.split('!')[1]))]
     it = iter(errs + [0.5] * 10000)
     real_err = adaptive_stepping.compute_error
